@@ -104,7 +104,7 @@ pub fn assemble(prog: &[Ins], base: u64) -> (Vec<u8>, Vec<u64>) {
     let mut a = base;
     for i in prog {
         addrs.push(a);
-        a += i.bytes.len() as u64;
+        a = a.wrapping_add(i.bytes.len() as u64);
     }
     addrs.push(a);
     let mut out = vec![];
@@ -113,7 +113,7 @@ pub fn assemble(prog: &[Ins], base: u64) -> (Vec<u8>, Vec<u64>) {
         if let Some(t) = i.target {
             let next = addrs[k + 1] as i64;
             let tgt = addrs[t.min(prog.len())] as i64;
-            let rel = tgt - next;
+            let rel = tgt.wrapping_sub(next);
             let n = b.len();
             if i.rel32 {
                 b[n - 4..].copy_from_slice(&(rel as i32).to_le_bytes());
@@ -256,9 +256,18 @@ pub fn gen_c11(tier: &str, seed: u64, out: &mut Vec<String>) {
     for _ in 0..n {
         let plen = 2 + rng.below(14) as usize;
         let prog = random_program(&mut rng, plen, true);
-        let (code, addrs) = assemble(&prog, CODE);
+        // the code usually sits in the middle of nowhere; sometimes it ends exactly at 2^64 (its end address wraps to 0) or at 2^32
+        let cbase = {
+            let (probe, _) = assemble(&prog, CODE);
+            match rng.below(12) {
+                0 => 0u64.wrapping_sub(probe.len() as u64),
+                1 => (1u64 << 32) - probe.len() as u64,
+                _ => CODE,
+            }
+        };
+        let (code, addrs) = assemble(&prog, cbase);
         // the entry point is usually the start of the code, sometimes a later instruction (the end of the code stays where it is)
-        let entry = if rng.chance(1, 4) { addrs[rng.below(addrs.len() as u64) as usize] } else { CODE };
+        let entry = if rng.chance(1, 4) { addrs[rng.below(prog.len() as u64) as usize] } else { cbase };
         let regs = setregs_at(&mut rng, entry);
         let limit = match rng.below(5) {
             0 => None,
@@ -281,8 +290,8 @@ pub fn gen_c11(tier: &str, seed: u64, out: &mut Vec<String>) {
             }
         }
         for mode in 0..2 {
-            out.push(format!("new {} {:x} {:x}", hex(&code), CODE, entry));
-            dec_all(&code, CODE, out);
+            out.push(format!("new {} {:x} {:x}", hex(&code), cbase, entry));
+            dec_all(&code, cbase, out);
             out.push(regs.clone());
             if stack {
                 // also lengths that are not multiples of 16 (the top-of-stack sentinel must still be where RSP + 8 starts)
@@ -341,6 +350,52 @@ pub fn gen_c11(tier: &str, seed: u64, out: &mut Vec<String>) {
 pub fn gen_c18(tier: &str, seed: u64, out: &mut Vec<String>) {
     let mut rng = Rng::new(seed ^ 0xC18);
     let n = if tier == "thorough" { 1500 } else { 150 };
+    // a traced jump whose bytes are gone by the time the trace is rendered (overwritten by the program or by the host): the
+    // renderers still return
+    for _ in 0..(if tier == "thorough" { 40 } else { 6 }) {
+        // 0: jmp 1 ; 1: mov byte [rip+d], 06 (over the first jmp) ; 2: jmp 3 ; 3: nop ; 4: nop
+        let build = |d: i32| -> Vec<Ins> {
+            let mut st = vec![0xc6, 0x05];
+            st.extend(d.to_le_bytes());
+            st.push(*[0x06u8, 0x0f, 0xff].get(0).unwrap());
+            vec![jmp(1, false), ins(&st), jmp(3, false), nop(), nop()]
+        };
+        let (_, addrs) = assemble(&build(0), CODE);
+        let d = CODE as i64 - addrs[2] as i64;
+        let (code, _) = assemble(&build(d as i32), CODE);
+        emit_new(out, &code, CODE);
+        out.push(setregs_at(&mut rng, CODE));
+        out.push(format!("prot {:x} 7", CODE));
+        out.push("stack 400".into());
+        for _ in 0..5 {
+            out.push("step".into());
+            out.push("trace".into());
+            out.push("render".into());
+        }
+        // host-side: wipe the whole code, then render again
+        out.push(format!("mwb {:x} {}", CODE, hex(&vec![0x06u8; code.len()])));
+        out.push("render".into());
+        out.push("trace".into());
+    }
+    // returns far outnumbering calls (and calls nested far deeper than any program would): the nesting level stays at the
+    // bound of its range instead of wrapping around
+    // (tens of thousands of *nested calls* are not run: the rendered trace is indented by depth and grows to gigabytes)
+    for _ in 0..1 {
+        let code = vec![0xc3u8, 0x90];
+        emit_new(out, &code, CODE);
+        out.push(setregs_at(&mut rng, CODE));
+        out.push("nomodel".into());
+        out.push("zero 10000000 48000 ~".into());
+        out.push(format!("fill 10000000 9000 {:x}", CODE));
+        out.push("rw 64 RSP 10000000".into());
+        let lim = 32790 + rng.below(8);
+        out.push(format!("maxinstr {:x}", lim));
+        out.push("execute 40000".into());
+        out.push("state".into());
+        // return k (k >= 1) is recorded at level max(2 - k, -32768)
+        out.push(format!("tracetail c #expect={} {}", lim + 1, vec![format!("{:x},{:x},r,-32768,1", CODE, CODE); 12].join(" ")));
+        out.push("render #expect=ok t=ok c=ok".into());
+    }
     for k in 0..n {
         let mut prog: Vec<Ins> = vec![];
         let plen = 3 + rng.below(12) as usize;
@@ -401,7 +456,7 @@ pub fn gen_c18(tier: &str, seed: u64, out: &mut Vec<String>) {
 pub fn gen_c12(tier: &str, seed: u64, out: &mut Vec<String>) {
     let mut rng = Rng::new(seed ^ 0xC12);
     let n = if tier == "thorough" { 3000 } else { 300 };
-    let outcomes = ["unhandled", "unhandled", "handled", "stop", "stophandled", "error", "tryreg", "stoperror", "errorempty"];
+    let outcomes = ["unhandled", "unhandled", "handled", "stop", "stophandled", "error", "tryreg", "stoperror", "errorempty", "stoptryreg"];
     for case in 0..n {
         if case % 11 == 9 {
             // registration lists that overlap with what is registered (or with themselves): known entries are skipped, every
@@ -472,7 +527,7 @@ pub fn gen_c12(tier: &str, seed: u64, out: &mut Vec<String>) {
         } else {
             plen = 2 + rng.below(5) as usize;
             for _ in 0..plen {
-                prog.push(match rng.below(8) {
+                prog.push(match rng.below(10) {
                     0 => nop(),
                     1 => mov_r_imm32(rng.below(4) as u8, rng.below(9) as u32),
                     2 => inc_r(rng.below(4) as u8),
@@ -480,6 +535,9 @@ pub fn gen_c12(tier: &str, seed: u64, out: &mut Vec<String>) {
                     4 => syscall(),
                     5 => ins(&[0xcd, 0x80]),
                     6 => ins(&[0xf1]),
+                    // instructions that fail by themselves (a hook that stopped the run stays obeyed when its instruction fails)
+                    7 => ins(&[0x48, 0x8b, 0x04, 0x25, 0x10, 0x00, 0x00, 0x00]), // mov rax, [0x10]: unmapped
+                    8 => ins(&[0x48, 0xf7, 0xf6]),                               // div rsi (RSI is set to 0 below)
                     _ => nop(),
                 });
             }
@@ -489,8 +547,10 @@ pub fn gen_c12(tier: &str, seed: u64, out: &mut Vec<String>) {
         out.push(setregs_at(&mut rng, CODE));
         if callret {
             out.push("stack 200".into());
+        } else {
+            out.push("rw 64 RSI 0".into());
         }
-        let mns: &[&str] = if callret { &["Call", "Ret", "Ret", "Nop", "Mov", "Inc", "Push", "Pop"] } else { &["Nop", "Mov", "Inc", "Int3", "Syscall", "Int", "Int1"] };
+        let mns: &[&str] = if callret { &["Call", "Ret", "Ret", "Nop", "Mov", "Inc", "Push", "Pop"] } else { &["Nop", "Mov", "Inc", "Int3", "Syscall", "Int", "Int1", "Div", "Mov"] };
         let nh = rng.below(7);
         for id in 0..nh {
             let phase = if rng.chance(1, 2) { "before" } else { "after" };
@@ -599,7 +659,11 @@ pub fn gen_c13(tier: &str, seed: u64, out: &mut Vec<String>) {
             if c >= 1 && rng.chance(1, 3) {
                 // an argument derived from what the run returned: the current break again, the heap base exactly (shrink to
                 // nothing) and a later regrow, one byte around either
-                let (src, delta) = match rng.below(7) {
+                // (R15 is the first reported break, one page above the base of the freshly created heap)
+                let (src, delta) = match rng.below(10) {
+                    7 => ("R15", 0u64.wrapping_sub(0x1000)),       // the heap base exactly: the heap shrinks to nothing
+                    8 => ("R15", 0u64.wrapping_sub(0xfff)),        // base + 1
+                    9 => ("R15", 0u64.wrapping_sub(0x1001)),       // base - 1: a query
                     0 | 1 => ("R14", 0u64),
                     2 => ("R15", 0),
                     3 => ("R15", 1 + rng.below(0x800)),
@@ -828,8 +892,16 @@ pub fn gen_c14(tier: &str, seed: u64, out: &mut Vec<String>) {
                             out.push(format!("cpreg RDI RDI {:x}", *rng.pick(&[1u64 << 32, 1 << 63, 0xffff_ffff_0000_0000, 1 << 16])));
                         }
                     }
-                    out.push(format!("rw 64 RSI {:x}", data));
-                    out.push(format!("rw 64 RDX {:x}", *rng.pick(&[4u64, 0, 0, 1, 0x40])));
+                    // a call that is none of the pipe handler's business is passed on untouched, whatever its buffer looks like
+                    // (NULL with a count of 0, unmapped, running over the end of its area)
+                    let (bp, cnt) = match rng.below(6) {
+                        0 => (0u64, 0u64),
+                        1 => (0x9000_0000, 0x10),
+                        2 => (BUF + 0x2000 - 4, 0x10),
+                        _ => (data, *rng.pick(&[4u64, 0, 0, 1, 0x40])),
+                    };
+                    out.push(format!("rw 64 RSI {:x}", bp));
+                    out.push(format!("rw 64 RDX {:x}", cnt));
                 }
                 _ => {
                     // unrelated syscall number
@@ -903,6 +975,11 @@ pub fn gen_c17(tier: &str, seed: u64, out: &mut Vec<String>) {
         if rng.chance(1, 25) {
             // sizes nobody can provide, up to the ones whose frame arithmetic leaves 64 bits: an error, never a crash
             len = *rng.pick(&[u64::MAX, u64::MAX - 15, u64::MAX - 0x47, u64::MAX - 0x1000, 1 << 63, 1 << 52]);
+        }
+        if rng.chance(1, 8) {
+            // the most recently created area lies in the upper half of the address space (a vsyscall page, a mapping at the very
+            // top): the searches for the strings and the stack start from the bottom whatever was created last
+            out.push(format!("zero {:x} {:x} ~", *rng.pick(&[0xffff_ffff_ff60_0000u64, 0x7fff_ffff_f000, 0xffff_ffff_ffff_f000, 0x8000_0000_0000_0000]), *rng.pick(&[0x1000u64, 1, 0x10])));
         }
         if rng.chance(1, 15) {
             // every candidate of the stack search up to some power of two is taken: the stack lands far up (beyond 4 GiB when
